@@ -204,20 +204,7 @@ impl World {
                 self.conn(toks[1]).r.push(REvt::Err(k));
             }
             "wmode" => {
-                let m = toks[2];
-                let mode = if m == "all" {
-                    WMode::All
-                } else if m == "stall" {
-                    WMode::Stall
-                } else if m == "zero" {
-                    WMode::Zero
-                } else if let Some(k) = m.strip_prefix("limit=") {
-                    WMode::Limit(k.parse().unwrap())
-                } else if let Some(k) = m.strip_prefix("broken=") {
-                    WMode::Broken(io_kind(k))
-                } else {
-                    panic!("wmode {}", m)
-                };
+                let mode = parse_wmode(toks[2]);
                 self.conn(toks[1]).w.set_mode(mode);
             }
             "wplan" => {
@@ -382,6 +369,8 @@ impl World {
         let mut cut: Option<usize> = None;
         let mut cutkind = "eof".to_string();
         let mut raw: Option<Vec<u8>> = None;
+        let mut init_plan: Option<Vec<WAns>> = None;
+        let mut init_mode: Option<String> = None;
         for t in &toks[2..] {
             if let Some(v) = t.strip_prefix("id=") {
                 id = Some(bytes_tok(v));
@@ -404,6 +393,10 @@ impl World {
                 cut = Some(v.parse().unwrap());
             } else if let Some(v) = t.strip_prefix("cutkind=") {
                 cutkind = v.to_string();
+            } else if let Some(v) = t.strip_prefix("wplan=") {
+                init_plan = Some(parse_wplan(v));
+            } else if let Some(v) = t.strip_prefix("wmode=") {
+                init_mode = Some(v.to_string());
             } else if let Some(v) = t.strip_prefix("raw=") {
                 raw = Some(bytes_tok(v));
             } else if *t == "bg" {
@@ -471,6 +464,12 @@ impl World {
         }
         let (pr, rctl) = reader();
         let (pw, wctl) = writer();
+        if let Some(p) = init_plan {
+            wctl.plan(p);
+        }
+        if let Some(m) = init_mode {
+            wctl.set_mode(parse_wmode(&m));
+        }
         let send_len = cut.unwrap_or(stream.len()).min(stream.len());
         let tosend = &stream[..send_len];
         match &chunks {
@@ -530,6 +529,22 @@ impl World {
         }
         wctl.0.lock().written.extend_from_slice(&all[n..]);
         self.conn(&name).hs_bytes = all[..n].to_vec();
+    }
+}
+
+pub fn parse_wmode(m: &str) -> WMode {
+    if m == "all" {
+        WMode::All
+    } else if m == "stall" {
+        WMode::Stall
+    } else if m == "zero" {
+        WMode::Zero
+    } else if let Some(k) = m.strip_prefix("limit=") {
+        WMode::Limit(k.parse().unwrap())
+    } else if let Some(k) = m.strip_prefix("broken=") {
+        WMode::Broken(io_kind(k))
+    } else {
+        panic!("wmode {}", m)
     }
 }
 
